@@ -527,6 +527,16 @@ func (f *Func) reachTarget(
 				state.TypedValue[v.Type] = v.Value
 
 			case *funcVertex:
+				// If we are already resolving the arguments of this very
+				// converter further up the stack, then the converters depend
+				// on each other in a cycle that none of the inputs breaks:
+				// the value cannot be produced this way.
+				convID := graph.VertexID(v)
+				if _, ok := state.visiting[convID]; ok {
+					return nil, &ErrArgumentUnsatisfied{Func: f}
+				}
+				state.visiting[convID] = struct{}{}
+
 				// Reach our arguments if they aren't already.
 				funcArgMap, err := f.reachTarget(
 					log, //log.Named(graph.VertexName(v)),
@@ -536,6 +546,7 @@ func (f *Func) reachTarget(
 					state,
 					redefine,
 				)
+				delete(state.visiting, convID)
 				if err != nil {
 					return nil, err
 				}
@@ -635,6 +646,11 @@ type callState struct {
 
 	// TODO
 	InputSet map[interface{}]graph.Vertex
+
+	// visiting is the set of function vertices whose arguments are being
+	// resolved right now. Meeting one of them again means the converters
+	// form a cycle that cannot be entered from the given inputs.
+	visiting map[interface{}]struct{}
 }
 
 func newCallState() *callState {
@@ -642,5 +658,6 @@ func newCallState() *callState {
 		NamedValue: map[string]reflect.Value{},
 		TypedValue: map[reflect.Type]reflect.Value{},
 		InputSet:   map[interface{}]graph.Vertex{},
+		visiting:   map[interface{}]struct{}{},
 	}
 }
